@@ -840,7 +840,31 @@ class Crate:
         if strip_prefix:
             j = json.loads(json.dumps(j).replace(strip_prefix, ""))
         self.field_aliases = {}
+        self.adt_aliases = {}
         if use_anchors and j.get("crate") == "slotted_egraphs":
+            # a type of the reviewed tree that is gone while exactly one new type of the same module has its field types in the same
+            # order was renamed (`State` -> `MatchState`): it is presented under its old path
+            table_ = _anchor_adts()
+            if table_:
+                cur_ = {a["path"]: a for a in j.get("adts", [])}
+                last_ = {p_.split("::")[-1] for p_ in cur_}
+                for opath, variants in table_.items():
+                    if opath in cur_ or opath.split("::")[-1] in last_ or len(variants) != 1:
+                        continue
+                    mod_ = opath.rsplit("::", 1)[0]
+                    otys = [t for _, t in variants[0][1]]
+                    cands = [a for a in j.get("adts", []) if a["path"].rsplit("::", 1)[0] == mod_ and a["path"] not in table_ and len(a["variants"]) == 1
+                             and [f["ty"] for f in a["variants"][0]["fields"]] == otys]
+                    if len(cands) == 1:
+                        self.adt_aliases[cands[0]["path"]] = opath
+                if self.adt_aliases:
+                    txt = json.dumps(j)
+                    for npath, opath in self.adt_aliases.items():
+                        txt = re.sub(r"(?<![A-Za-z0-9_])%s(?![A-Za-z0-9_])" % re.escape(npath), opath, txt)
+                        # the variant of a struct is named like the struct
+                        nlast, olast = npath.split("::")[-1], opath.split("::")[-1]
+                        txt = txt.replace('"name": "%s"' % nlast, '"name": "%s"' % olast).replace('"variant": "%s"' % nlast, '"variant": "%s"' % olast)
+                    j = json.loads(txt)
             ren = _field_aliases(j)
             # a private struct that did not exist in the reviewed tree and merely gives names to the components of what was a tuple
             # (`(Slot, Slot)` -> `Entry { key, val }`, `(usize, String)` -> `ShowEntry { idx, line }`): its fields are presented by
